@@ -57,6 +57,12 @@ def run(ctx):
     ntr = 150 if q else 3000
     tp = os.path.join(ctx.work, "fs-trace.ndjson")
     ctx.harness(["fmtstream", "record", tp, ntr, bins["benchfilter"]])
+    if os.path.exists(tp + ".toolfails"):
+        # the reader or the benchfilter binary failed on generated, well-formed text
+        tf = json.load(open(tp + ".toolfails"))
+        ctx.report([{"signature": x["signature"], "family": "fmtstream-record", "detail": "trace %d: %s" % (x["t"], x["detail"])}
+                    for x in tf[:5]], "recorded traces: a tool failed on well-formed input")
+        ctx.cov["tool_failures_on_wellformed_input"] = len(tf)
     events = ctx.read_ndjson(tp)
     nw, nchg = validate(ctx, tp, events)
     ctx.cov["traces_validated_against_impl"] += ntr
